@@ -5,6 +5,7 @@ mod alloc;
 mod core;
 mod uni;
 mod h;
+mod fref;
 mod c01;
 mod c02;
 mod c03;
